@@ -641,3 +641,60 @@ def constapi(tier, seed, params):
     out.append("op=const fn=from_array n=1024 ty=u8")
     out.append("op=const fn=uninit n=1024 ty=u32")
     return out
+
+
+LIFE_APIS = ["as_slice", "as_mut_slice", "from_slice", "try_from_slice", "from_mut_slice", "try_from_mut_slice", "chunks_from_slice",
+             "chunks_from_slice_mut", "slice_from_chunks", "slice_from_chunks_mut", "from_chunks", "from_chunks_mut", "into_chunks",
+             "into_chunks_mut", "deref", "deref_mut", "borrow", "borrow_mut", "as_ref_slice", "as_mut_slice_trait", "as_ref_array",
+             "as_mut_array", "from_array_ref", "from_array_mut", "try_from_ref", "try_from_mut", "split_ref", "split_mut", "flatten_ref",
+             "flatten_mut", "unflatten_ref", "unflatten_mut", "into_iter_ref", "into_iter_mut", "iter_as_slice", "iter_as_mut_slice"]
+
+
+def corpora_uniq(api):
+    import corpora
+    return corpora.LIFE[api][3]
+
+
+def types(tier, seed, params):
+    out = []
+    R = range(0, 5) if tier == "quick" else range(0, 7)
+    def both(form, a, b, outlen):
+        out.append("op=len form=%s a=%d b=%d ann=infer" % (form, a, b))
+        if outlen is not None:
+            out.append("op=len form=%s a=%d b=%d ann=%d" % (form, a, b, outlen))
+            out.append("op=len form=%s a=%d b=%d ann=%d" % (form, a, b, outlen + 1))
+            if outlen > 0:
+                out.append("op=len form=%s a=%d b=%d ann=%d" % (form, a, b, outlen - 1))
+    for a in R:
+        for form in ("append", "prepend"):
+            both(form, a, 0, a + 1)
+        for form in ("pop_back", "pop_front", "remove", "swap_remove"):
+            both(form, a, 0, a - 1 if a >= 1 else None)
+        for b in R:
+            for form in ("split", "split_ref", "split_mut"):
+                both(form, a, b, a - b if b <= a else None)
+            both("concat", a, b, a + b)
+            both("flatten", a, b, a * b)
+            both("unflatten", a, b, a // b if b > 0 else None)
+            both("zip", a, b, a if a == b else None)
+            for form in ("eq", "partial_cmp", "cmp", "from_array", "into_array", "from_native", "into_native", "ref_native", "mutref_native",
+                         "asref_native", "asmut_native", "from_chunks", "from_chunks_mut", "into_chunks", "into_chunks_mut"):
+                out.append("op=len form=%s a=%d b=%d ann=infer" % (form, a, b))
+    for a in list(range(0, 14)):
+        for b in sorted(set([a - 1, a, a + 1, 0, 12, 13])):
+            if b < 0:
+                continue
+            out.append("op=len form=from_tuple a=%d b=%d ann=infer" % (a, b))
+            out.append("op=len form=into_tuple a=%d b=%d ann=infer" % (a, b))
+    for elem in ("u8", "rc", "cell", "guard", "string", "noclone"):
+        for n in (0, 1, 3, 4):
+            for target in ("array", "ref", "iter"):
+                for trait in ("send", "sync"):
+                    out.append("op=auto trait=%s target=%s elem=%s n=%d" % (trait, target, elem, n))
+            for target in ("array", "iter"):
+                for trait in ("clone", "copy"):
+                    out.append("op=auto trait=%s target=%s elem=%s n=%d" % (trait, target, elem, n))
+    for api in LIFE_APIS:
+        for prog in ("ok", "escape", "moved", "alias"):
+            out.append("op=life api=%s prog=%s uniq=%d" % (api, prog, 1 if corpora_uniq(api) else 0))
+    return out
